@@ -143,6 +143,8 @@ rs_register_eqns derefArgs writeBackArgs hasMutRefParam
 -- [poller] end
 -- [errors] BEGIN
 rs_register_eqns enumFromKeys fnPathArg fnPathParams fnPathArgs
+rs_register_eqns memStr useGlobEnum globVariant globPath retHasErr tryFromDecl typedInit typedFields fieldTyOf
+attribute [rs_eval] tableTys
 -- [errors] END
 /-! ### [threads] begin: registrations for the core rules added with the `Threads` group -/
 rs_register_eqns evalEach listPush captureArgs filterBy
